@@ -5,6 +5,7 @@ import (
 	"context"
 	"errors"
 	"fmt"
+	"io"
 	"net/http"
 	"strconv"
 	"strings"
@@ -275,8 +276,17 @@ func (e *chainEnv) appWrite(w interface{ Write([]byte) (int, error) }, p []byte)
 	for _, tag := range res.wrapStack {
 		res.WrapWant[tag] += len(p)
 	}
+	if r, _ := e.res(); (len(p)+r.ID)%4 == 0 {
+		// a quarter of the writes the way io.Copy does them from a plain reader (a file, a pipe): through
+		// the destination's io.ReaderFrom if it has one, through Write otherwise
+		io.Copy(w, onlyReader{bytes.NewReader(p)})
+		return
+	}
 	w.Write(p)
 }
+
+// onlyReader hides every method of a reader but Read (no WriteTo: io.Copy must go through the destination).
+type onlyReader struct{ io.Reader }
 
 func fbytes(tag string, id, n int) []byte {
 	if n == 0 {
